@@ -205,47 +205,81 @@ func registerTimeModels(e *Engine) {
 		// plain shapes on which Go's parser is transcribed exactly -
 		//   scheme "://" [userinfo "@"] host [":" port] [path] ["?" query] ["#" fragment]
 		//   path ["?" query] ["#" fragment]            (path empty or starting with "/")
-		// over alphabets without percent-escapes and control characters. Other texts a
+		// over plain alphabets (letters, digits, "/._-" in paths, "=&" in queries). Other texts a
 		// parser accepts (opaque URLs, escapes, IPv6 literals, "//host" references) are
 		// outside the claim.
 		name := "urlparse(" + t.Key() + ")"
 		x.bounds["shapes of URLs parsed from symbolic text (absolute, path-only)"] = 2
-		shape := x.Choose(name+".shape", 3)
-		if shape == 0 {
+		// the structure is read off the text with regular-expression tests (cheap to
+		// decide against other constraints on the text); the components are then tied
+		// to it by one word equation
+		const alnum = `(re.range "a" "z") (re.range "0" "9")`
+		const noDelim = `(re.* (re.diff re.allchar (re.union (str.to_re "/") (str.to_re "?") (str.to_re "#"))))`
+		const absPrefix = `(re.++ (re.+ (re.range "a" "z")) (str.to_re "://"))`
+		if !x.Branch(x.sym(name+".ok", SBool)) {
 			// texts the parser rejects are represented by those holding a DEL control character
-			x.assume(Contains(t, StrC("\x7f")))
+			x.assume(InRe(t, `(re.++ re.all (str.to_re "\u{7f}") re.all)`))
 			return TupleV{NilPtr, x.libError("url.Parse")}
 		}
-		const unres = `(re.range "A" "Z") (re.range "a" "z") (re.range "0" "9") (str.to_re "-") (str.to_re ".") (str.to_re "_") (str.to_re "~")`
-		pathT := x.sym(name+".Path", SStr)
-		hasQ, q := x.sym(name+".hasQuery", SBool), x.sym(name+".RawQuery", SStr)
-		hasF, f := x.sym(name+".hasFragment", SBool), x.sym(name+".Fragment", SStr)
-		x.assume(InRe(pathT, `(re.opt (re.++ (str.to_re "/") (re.* (re.union `+unres+` (str.to_re "/") (str.to_re "!") (str.to_re "$") (str.to_re "&") (str.to_re "'") (str.to_re "(") (str.to_re ")") (str.to_re "*") (str.to_re "+") (str.to_re ",") (str.to_re ";") (str.to_re "=") (str.to_re ":") (str.to_re "@")))))`))
-		x.assume(InRe(q, `(re.* (re.union `+unres+` (str.to_re "/") (str.to_re "?") (str.to_re "&") (str.to_re "=") (str.to_re "+") (str.to_re ":") (str.to_re "@") (str.to_re ";") (str.to_re ",")))`))
-		x.assume(InRe(f, `(re.* (re.union `+unres+` (str.to_re "/") (str.to_re "?") (str.to_re "&") (str.to_re "=") (str.to_re "+") (str.to_re ":") (str.to_re "@")))`))
-		x.assume(Implies(Not(hasQ), Eq(q, StrC(""))))
-		x.assume(Implies(Not(hasF), Eq(f, StrC(""))))
-		tail := Concat(pathT, Ite(hasQ, Concat(StrC("?"), q), StrC("")), Ite(hasF, Concat(StrC("#"), f), StrC("")))
+		abs := x.Branch(InRe(t, `(re.++ `+absPrefix+` re.all)`))
+		hasUser := false
+		var hasPath bool
+		if abs {
+			hasUser = x.Branch(InRe(t, `(re.++ `+absPrefix+` (re.+ (re.union `+alnum+`)) (str.to_re "@") re.all)`))
+			hasPath = x.Branch(InRe(t, `(re.++ `+absPrefix+` `+noDelim+` (str.to_re "/") re.all)`))
+		} else {
+			hasPath = x.Branch(InRe(t, `(re.++ (re.diff re.allchar (re.union (str.to_re "?") (str.to_re "#"))) re.all)`))
+		}
+		hasQuery := x.Branch(InRe(t, `(re.++ (re.* (re.diff re.allchar (str.to_re "#"))) (str.to_re "?") re.all)`))
+		hasFrag := x.Branch(InRe(t, `(re.++ re.all (str.to_re "#") re.all)`))
+		pathT, q, f := StrC(""), StrC(""), StrC("")
+		hasQ := BoolC(hasQuery)
+		var parts []*Term
 		scheme, host := StrC(""), StrC("")
 		var user Value = NilPtr
-		if shape == 1 {
+		if abs {
 			scheme = x.sym(name+".Scheme", SStr)
 			host = x.sym(name+".Host", SStr)
-			x.assume(InRe(scheme, `(re.++ (re.range "a" "z") (re.* (re.union (re.range "a" "z") (re.range "0" "9") (str.to_re "+") (str.to_re "-") (str.to_re "."))))`))
-			x.assume(InRe(host, `(re.++ (re.* (re.union (re.range "A" "Z") (re.range "a" "z") (re.range "0" "9") (str.to_re "-") (str.to_re "."))) (re.opt (re.++ (str.to_re ":") (re.* (re.range "0" "9")))))`))
-			userTxt := StrC("")
-			if x.Branch(x.sym(name+".hasUser", SBool)) {
+			x.assume(InRe(scheme, `(re.+ (re.range "a" "z"))`))
+			x.assume(InRe(host, `(re.++ (re.* (re.union `+alnum+` (re.range "A" "Z") (str.to_re "-") (str.to_re "."))) (re.opt (re.++ (str.to_re ":") (re.* (re.range "0" "9")))))`))
+			parts = append(parts, scheme, StrC("://"))
+			if hasUser {
 				u := x.sym(name+".User", SStr)
-				x.assume(InRe(u, `(re.+ (re.union `+unres+`))`))
-				userTxt = Concat(u, StrC("@"))
+				x.assume(InRe(u, `(re.+ (re.union `+alnum+`))`))
+				parts = append(parts, u, StrC("@"))
 				uit := x.E.namedType("net/url", "Userinfo")
 				uc := x.newCell(zeroValue(uit), uit, "url.Userinfo")
 				user = &Pointer{Cell: uc}
 				x.setField(user.(*Pointer), uit, "username", u)
 			}
-			x.assume(Eq(t, Concat(scheme, StrC("://"), userTxt, host, tail)))
-		} else {
-			x.assume(Eq(t, tail))
+			parts = append(parts, host)
+		}
+		if hasPath {
+			if !abs && !hasQuery && !hasFrag {
+				pathT = t // the text is the path
+			} else {
+				pathT = x.sym(name+".Path", SStr)
+			}
+			if abs {
+				x.assume(InRe(pathT, `(re.++ (str.to_re "/") (re.* (re.union `+alnum+` (re.range "A" "Z") (str.to_re "/") (str.to_re ".") (str.to_re "-") (str.to_re "_"))))`))
+			} else {
+				// a path-only reference may also be relative ("saml/idp")
+				x.assume(InRe(pathT, `(re.+ (re.union `+alnum+` (re.range "A" "Z") (str.to_re "/") (str.to_re ".") (str.to_re "-") (str.to_re "_")))`))
+			}
+			parts = append(parts, pathT)
+		}
+		if hasQuery {
+			q = x.sym(name+".RawQuery", SStr)
+			x.assume(InRe(q, `(re.* (re.union `+alnum+` (str.to_re "=") (str.to_re "&")))`))
+			parts = append(parts, StrC("?"), q)
+		}
+		if hasFrag {
+			f = x.sym(name+".Fragment", SStr)
+			x.assume(InRe(f, `(re.* (re.union `+alnum+`))`))
+			parts = append(parts, StrC("#"), f)
+		}
+		if !(len(parts) == 1 && parts[0] == t) {
+			x.assume(Eq(t, Concat(parts...)))
 		}
 		x.setField(p, ut, "Scheme", scheme)
 		x.setField(p, ut, "Host", host)
